@@ -80,6 +80,11 @@ def plan(prop, tier, seed, ex_tables=None):
     if prop == 'C18':
         for t in corpus.bigintent():
             out.append((t, False))
+        # gaps in the sizes of a concept's minimal generating sets; dense 4..6 x 4..6 tables
+        for t in corpus.mingen(seed, 300 if tier == 'quick' else 3000):
+            out.append((t, False))
+        for t in corpus.randoms(400 if tier == 'quick' else 4000, seed + 18, 6, 6, 4, 4):
+            out.append((t, False))
     if prop == 'C16':
         for t in corpus.giant(seed)[:1]:       # many objects, 3 properties (relations are quadratic in properties)
             out.append((t, False))
